@@ -29,15 +29,15 @@ def run(tier):
                       "font generations; the same loops and random ones are run on the real client with a mock patch "
                       "server and every round is validated by IFTTrace. distinct_nontrivial = cases whose selected "
                       "group has more than one URI, plus recorded events. (4) IFT1.tla gives the interpretation of format 1 patch maps (glyph map, feature map with record ordering and range validity rules); TLC checks monotonicity / containment / never-applied on 41472 (table, definition) cases and each is replayed on intersecting_patches with one- and two-byte entry indices, glyph-keyed and table-keyed patch formats, inclusive and inverted code point sets, and with truncated entry map data (error, never a panic); IFT1Trace requires the offered entries to equal IFT1!Offered.")
-    ck.assumptions = ["format 2 mapping tables only (format 1 glyph/feature maps are not modelled yet)",
-                      "one design-space axis, integer segment end points, <= 8 code point atoms, <= 3 feature tags",
+    ck.assumptions = ["format 2 mapping tables in IFT.tla, format 1 glyph / feature maps in IFT1.tla",
+                      "two design-space axes for glyph keyed entries and definitions (MC_IFTEnumAx, random tables), one for invalidating entries (their intersection sizes are modelled on one axis); integer segment end points, <= 8 code point atoms, <= 3 feature tags",
                       "IFT specification text as transcribed in spec/ift/IFT.tla",
                       "a URI names one resource: all entries carrying a URI have the same patch format"]
     quick = tier == "quick"
     wd = vlib.workdir(PID)
     vlib.stage_specs(wd, "ift", "common")
     # (1) exhaustive family
-    for mod in ["MC_IFTEnumQuick" if quick else "MC_IFTEnum", "MC_IFTEnumDup"]:
+    for mod in ["MC_IFTEnumQuick" if quick else "MC_IFTEnum", "MC_IFTEnumDup", "MC_IFTEnumAx"]:
         r = vlib.run_tlc(wd, mod, workers=8 if quick else 14, timeout=3400)
         ck.add_tlc("tlc:" + mod, r)
         if not r.ok:
